@@ -176,3 +176,73 @@ theorem dequeue_none {s : State} {q a : Nat} (h : (s.dequeue q a).2 = none) : (s
   · rfl
 
 end Desync
+
+namespace Desync
+open Gen
+
+/-- is job `j` open: its closure has been invoked and it has neither completed nor been destroyed -/
+def State.jobOpen (s : State) (j : Nat) : Bool :=
+  match s.jobs[j]? with
+  | some b => b.begun && !b.ended
+  | none => false
+
+theorem jobOpen_of {s : State} {j : Nat} {b : Job} (h : s.jobs[j]? = some b) : s.jobOpen j = (b.begun && !b.ended) := by simp [State.jobOpen, h]
+
+@[simp] theorem jobOpen_setQ (s : State) (q : Nat) (v : JobQ) (i : Nat) : (s.setQ q v).jobOpen i = s.jobOpen i := rfl
+@[simp] theorem jobOpen_setFut (s : State) (f : Nat) (v : Fut) (i : Nat) : (s.setFut f v).jobOpen i = s.jobOpen i := rfl
+@[simp] theorem jobOpen_setGate (s : State) (g : Nat) (v : Gate) (i : Nat) : (s.setGate g v).jobOpen i = s.jobOpen i := rfl
+@[simp] theorem jobOpen_setAct (s : State) (a : Nat) (v : Act) (i : Nat) : (s.setAct a v).jobOpen i = s.jobOpen i := rfl
+@[simp] theorem jobOpen_setSf (s : State) (u : Nat) (v : SyncFut) (i : Nat) : (s.setSf u v).jobOpen i = s.jobOpen i := rfl
+@[simp] theorem jobOpen_setPThr (s : State) (p : Nat) (v : PThr) (i : Nat) : (s.setPThr p v).jobOpen i = s.jobOpen i := rfl
+@[simp] theorem jobOpen_setHolder (s : State) (q : Nat) (h : Option Nat) (i : Nat) : (s.setHolder q h).jobOpen i = s.jobOpen i := rfl
+@[simp] theorem jobOpen_takeReady (s : State) (w a : Nat) (i : Nat) : (s.takeReady w a).jobOpen i = s.jobOpen i := rfl
+@[simp] theorem jobOpen_dropReady (s : State) (w : Nat) (i : Nat) : (s.dropReady w).jobOpen i = s.jobOpen i := rfl
+@[simp] theorem jobOpen_goto (s : State) (a : Nat) (pc : Pc) (i : Nat) : (s.goto a pc).jobOpen i = s.jobOpen i := by unfold State.goto; split <;> rfl
+@[simp] theorem jobOpen_setWoken (s : State) (a : Nat) (b : Bool) (i : Nat) : (s.setWoken a b).jobOpen i = s.jobOpen i := by unfold State.setWoken; split <;> rfl
+@[simp] theorem jobOpen_notify (s : State) (w : Nat) (i : Nat) : (s.notify w).jobOpen i = s.jobOpen i := by unfold State.notify; split <;> (try split) <;> rfl
+@[simp] theorem jobOpen_setQState (s : State) (q : Nat) (st : QState) (i : Nat) : (s.setQState q st).jobOpen i = s.jobOpen i := by unfold State.setQState; split <;> rfl
+@[simp] theorem jobOpen_pushBack (s : State) (q j : Nat) (i : Nat) : (s.pushBack q j).jobOpen i = s.jobOpen i := by unfold State.pushBack; split <;> rfl
+@[simp] theorem jobOpen_pushFront (s : State) (q j : Nat) (i : Nat) : (s.pushFront q j).jobOpen i = s.jobOpen i := by unfold State.pushFront; split <;> rfl
+
+theorem jobOpen_setJob_of {s : State} {j : Nat} {b : Job} (hj : s.jobs[j]? = some b) (v : Job) (i : Nat) :
+    (s.setJob j v).jobOpen i = if i = j then (v.begun && !v.ended) else s.jobOpen i := by
+  have hlt : j < s.jobs.length := (List.getElem?_eq_some_iff.mp hj).1
+  simp only [State.jobOpen, State.setJob, List.getElem?_set]
+  by_cases h : i = j
+  · subst h; simp [hlt]
+  · have : ¬ j = i := fun e => h e.symm
+    simp [h, this]
+
+theorem jobOpen_setJob_keep {s : State} {j : Nat} {b v : Job} (hj : s.jobs[j]? = some b) (h1 : v.begun = b.begun) (h2 : v.ended = b.ended) (i : Nat) :
+    (s.setJob j v).jobOpen i = s.jobOpen i := by
+  rw [jobOpen_setJob_of hj]
+  split
+  · next h => rw [h, jobOpen_of hj, h1, h2]
+  · rfl
+
+@[simp] theorem jobOpen_setJobPh (s : State) (j : Nat) (ph : Phase) (i : Nat) : (s.setJobPh j ph).jobOpen i = s.jobOpen i := by
+  unfold State.setJobPh
+  split
+  · next v hv => exact jobOpen_setJob_keep (v := { v with ph := ph }) hv rfl rfl i
+  · rfl
+
+theorem jobOpen_fresh (s : State) : s.jobOpen s.jobs.length = false := by simp [State.jobOpen]
+
+theorem jobOpen_of_append {Y s : State} {nj : Job} (hJ : Y.jobs = s.jobs ++ [nj]) (i : Nat) :
+    Y.jobOpen i = if i = s.jobs.length then (nj.begun && !nj.ended) else s.jobOpen i := by
+  simp only [State.jobOpen, hJ]
+  by_cases h : i = s.jobs.length
+  · subst h; simp
+  · by_cases hlt : i < s.jobs.length
+    · simp [h, List.getElem?_append_left hlt]
+    · have h1 : (s.jobs ++ [nj])[i]? = none := by simp; omega
+      have h2 : s.jobs[i]? = none := by simp; omega
+      simp [h, h1, h2]
+
+@[simp] theorem jobOpen_newJob (s : State) (q : Nat) (kind : JobKind) (i : Nat) : (s.newJob q kind).1.jobOpen i = s.jobOpen i := by
+  rw [jobOpen_of_append (s := s) (nj := { q := q, kind := kind, ph := .queued, begun := false, ended := false, reg := none }) rfl]
+  split
+  · next h => rw [h, jobOpen_fresh]; rfl
+  · rfl
+
+end Desync
